@@ -238,6 +238,35 @@ add("refactor_v3000_props_dict", (V3, '''    optional_attrs = {
                 atom_attrs[MASS] = mass
     if isotope_mass:
         atom_attrs[MASS] = isotope_mass'''), silent=True, note="explicit loop over the optional tokens")
+add("refactor_v2000_table_dispatch", [(V2, '''        if line.startswith("M  CHG"):
+            # M  CHGnn8 aaa vvv ...
+            _merge_tuples_into_additional_attributes(
+                _parse_atom_value_assignments(line, atom_attrs), CHG, additional_attrs
+            )
+            reset_chg_and_rad = True
+        elif line.startswith("M  RAD"):
+            # M  RADnn8 aaa vvv ...
+            _merge_tuples_into_additional_attributes(
+                _parse_atom_value_assignments(line, atom_attrs), RAD, additional_attrs
+            )
+            reset_chg_and_rad = True
+        elif line.startswith("M  ISO"):
+            # M  ISOnn8 aaa vvv ...
+            _merge_tuples_into_additional_attributes(
+                _parse_atom_value_assignments(line, atom_attrs),
+                MASS,
+                additional_attrs,
+            )
+        elif line == "M  END":''', '''        if (key := _PROPERTY_LINE_KEYS.get(line[:6])) is not None:
+            _merge_tuples_into_additional_attributes(
+                _parse_atom_value_assignments(line, atom_attrs), key, additional_attrs
+            )
+            if key in (CHG, RAD):
+                reset_chg_and_rad = True
+        elif line == "M  END":'''), (V2, '''def _parse_attribute_block(''', '''_PROPERTY_LINE_KEYS = {"M  CHG": CHG, "M  RAD": RAD, "M  ISO": MASS}
+
+
+def _parse_attribute_block(''')], silent=True, note="table-driven dispatch on the line prefix")
 add("refactor_v2000_clear_inline", (V2, '''        _clear_atom_attribute(CHG, atom_attrs)
         _clear_atom_attribute(RAD, atom_attrs)''', '''        for atom_attr in atom_attrs.values():
             atom_attr.pop(CHG, None)
